@@ -331,6 +331,30 @@ def rule_hc45(prog):
                         '%s overwrites the field `%s` of a node: a shared '
                         'node changes under every OBDD that contains it' % (
                             s.fi.short(), name)))
+    # the parent registries are modified only by the reset routine
+    for s in E.summ.values():
+        for (kind, name, tgt, where, rts) in s.raw_writes:
+            if kind != 'mutate':
+                continue
+            regs = [x for x in walk(tgt) if isinstance(x, App) and
+                    x.op == 'attr' and isinstance(x.args[1], Const) and
+                    x.args[1].v in ('f_low', 'f_high')]
+            if not regs or tgt is not regs[0] and tgt != regs[0]:
+                continue
+            ok = s.fi.name == '__reset__' and name == 'add'
+            r4.inst(function=s.fi.short(), registry_operation=name,
+                    on=repr(tgt)[:60], where=where)
+            if ok:
+                r4.ok()
+            else:
+                r4.fail(Finding(
+                    PROP, 'R-HC-4', where, s.fi.short(),
+                    'registry-write:%s:%s' % (s.fi.short(), name),
+                    '%s modifies the parent registry %r in place (.%s): '
+                    'parents disappear from (or foreign nodes enter) the '
+                    'unique table, so a later lookup misses an existing '
+                    'node and a duplicate (variable, low, high) is '
+                    'created' % (s.fi.short(), tgt, name)))
     # __reset__ is called from __new__ only
     for fi in prog.all_functions():
         if not fi.module.name.startswith(prog.module('BDD').name):
